@@ -27,8 +27,8 @@ Open Scope Z_scope.
 (* at most one thread is between winning callbackInProcess and clearing it (the event loop / SetCallbacks
    between the CAS and the spawn count for the goroutine they are about to start); OnData (g_run) executes
    only in such a thread, hence never twice at the same time *)
-Theorem C20_serial : forall cb0 inb nc scr ups sy sched,
-  let s := run sched (init_sy cb0 inb nc scr ups sy) in
+Theorem C20_serial : forall cb0 inb nc scr ups sy nds pks sched,
+  let s := run sched (init_rd cb0 inb nc scr ups sy nds pks) in
   cz g_own (gors s) + e_proxy (epc s) + s_proxy (spc s) <= 1 /\ cz g_run (gors s) <= 1 /\
   (forall i j gi gj, nth_error (gors s) i = Some gi -> nth_error (gors s) j = Some gj ->
                      g_own gi = true -> g_own gj = true -> i = j).
@@ -39,11 +39,11 @@ Print Assumptions C20_serial.
    never stranded: the event loop is between its add and its CAS/spawn, or SetCallbacks is between installing
    the callbacks and its spawn, or a goroutine is between its store of 0 and its re-check of pending
    (GLdCs/GLen/GCas) — in each case that thread's next steps take the flag *)
-Theorem C20_no_strand : forall cb0 inb nc scr ups sy sched,
-  let s := run sched (init_sy cb0 inb nc scr ups sy) in
+Theorem C20_no_strand : forall cb0 inb nc scr ups sy nds pks sched,
+  let s := run sched (init_rd cb0 inb nc scr ups sy nds pks) in
   cbset s = true -> pending s <> [] -> st s = c_streamOpened -> cstate s = 0 ->
   (forall i g, nth_error (gors s) i = Some g -> g_own g = false) ->
-  (epc s = EChk \/ epc s = EGetCb \/ epc s = ECas \/ epc s = EWgAdd \/ epc s = ESpawn) \/
+  (epc s = EChk \/ epc s = ENotify \/ epc s = EGetCb \/ epc s = ECas \/ epc s = EWgAdd \/ epc s = ESpawn) \/
   (spc s = SCas \/ spc s = SWgAdd \/ spc s = SSpawn) \/
   (exists i g, nth_error (gors s) i = Some g /\ g_re g = true).
 Proof. exact no_strand. Qed.
@@ -52,8 +52,8 @@ Print Assumptions C20_no_strand.
 (* corollary at quiescence (event loop idle, SetCallbacks not in progress, every goroutine finished) with
    callbacks installed and the stream open: nothing is left in pending or recvBuf and the bytes consumed by the
    OnData calls are exactly the bytes that arrived — whether they arrived before or after SetCallbacks *)
-Theorem C20_quiescent : forall cb0 inb nc scr ups sy sched,
-  let s := run sched (init_sy cb0 inb nc scr ups sy) in
+Theorem C20_quiescent : forall cb0 inb nc scr ups sy nds pks sched,
+  let s := run sched (init_rd cb0 inb nc scr ups sy nds pks) in
   cbset s = true -> (spc s = SIdle \/ spc s = SDone) ->
   epc s = EIdle -> (forall i g, nth_error (gors s) i = Some g -> g = GExit) ->
   st s = c_streamOpened -> cstate s = 0 ->
@@ -62,8 +62,8 @@ Proof. exact quiescent. Qed.
 Print Assumptions C20_quiescent.
 
 (* order, exactly once *)
-Theorem C20_order_once : forall cb0 inb nc scr ups sy sched,
-  let s := run sched (init_sy cb0 inb nc scr ups sy) in
+Theorem C20_order_once : forall cb0 inb nc scr ups sy nds pks sched,
+  let s := run sched (init_rd cb0 inb nc scr ups sy nds pks) in
   arrived s = concat (map snd (chunks s)) ++ concat (pending s) /\
   moved s = concat (map snd (filter fst (chunks s))) /\
   (st s <> c_streamClosed -> arrived s = consumed s ++ recv s ++ concat (pending s)).
@@ -85,8 +85,8 @@ Theorem C20_excluded_while_held : forall sched s0 w h i n c,
 Proof. exact excluded_while_held. Qed.
 Print Assumptions C20_excluded_while_held.
 
-Theorem C20_order_once_fine : forall cb0 inb nc scr ups sy sched,
-  let s := base (frun sched (finit (init_sy cb0 inb nc scr ups sy))) in
+Theorem C20_order_once_fine : forall cb0 inb nc scr ups sy nds pks sched,
+  let s := base (frun sched (finit (init_rd cb0 inb nc scr ups sy nds pks))) in
   arrived s = concat (map snd (chunks s)) ++ concat (pending s) /\
   moved s = concat (map snd (filter fst (chunks s))) /\
   (st s <> c_streamClosed -> arrived s = consumed s ++ recv s ++ concat (pending s)).
@@ -106,8 +106,8 @@ Proof. vm_compute. split; reflexivity. Qed.
 
 (* once the state has left `opened` no further OnData begins, except the single one whose IsOpen()
    check had already passed (g_cb; at most one by C20_serial) *)
-Theorem C20_stop : forall cb0 inb nc scr ups sy sched sched',
-  let s := run sched (init_sy cb0 inb nc scr ups sy) in
+Theorem C20_stop : forall cb0 inb nc scr ups sy nds pks sched sched',
+  let s := run sched (init_rd cb0 inb nc scr ups sy nds pks) in
   st s <> c_streamOpened ->
   let s' := run sched' s in
   st s' <> c_streamOpened /\ olen s' + cz g_cb (gors s') <= olen s + cz g_cb (gors s).
@@ -118,21 +118,70 @@ Print Assumptions C20_stop.
    SetCallbacks): formerly refuted, now theorems.  Unconsumed received bytes live in TWO places — pendingData
    and recvBuf (a synchronous read moves everything pending into recvBuf) — and BOTH are covered: at quiescence
    with callbacks installed nothing is left in either. ---- *)
-Theorem C20_late_no_strand : forall inb scr sy sched,
-  let s := run sched (init_sy false inb 0 scr [] sy) in
+Theorem C20_late_no_strand : forall inb scr sy nds pks sched,
+  let s := run sched (init_rd false inb 0 scr [] sy nds pks) in
   cbset s = true -> spc s = SDone -> epc s = EIdle -> (forall i g, nth_error (gors s) i = Some g -> g = GExit) ->
   st s = c_streamOpened -> cstate s = 0 ->
   pending s = [] /\ recv s = [] /\ consumed s = arrived s.
 Proof.
-  intros inb scr sy sched s Hcb Hsp He Hg Hst Hcs.
-  exact (quiescent false inb 0 scr [] sy sched Hcb (or_intror Hsp) He Hg Hst Hcs).
+  intros inb scr sy nds pks sched s Hcb Hsp He Hg Hst Hcs.
+  exact (quiescent false inb 0 scr [] sy nds pks sched Hcb (or_intror Hsp) He Hg Hst Hcs).
 Qed.
 Print Assumptions C20_late_no_strand.
 
-Theorem C20_late_serial : forall inb scr sy sched,
-  let s := run sched (init_sy false inb 0 scr [] sy) in cz g_run (gors s) <= 1.
-Proof. intros inb scr sy sched. apply (serial false inb 0 scr [] sy sched). Qed.
+Theorem C20_late_serial : forall inb scr sy nds pks sched,
+  let s := run sched (init_rd false inb 0 scr [] sy nds pks) in cz g_run (gors s) <= 1.
+Proof. intros inb scr sy nds pks sched. apply (serial false inb 0 scr [] sy nds pks sched). Qed.
 Print Assumptions C20_late_serial.
+
+(* ---- a blocking read inside OnData.  OnData is handed recvBuf as its BufferReader; ReadBytes/Peek/Discard/ReadString
+   of more than has arrived park in readMore's select on recvNotifyCh / closeNotifyCh (model: `needs`, GRdMove / GRdPark;
+   `picks` is the adversary's choice when both channels are ready).  While the invocation is parked callbackInProcess
+   is 1, so the event loop's startCallbackGoroutine does nothing: the token fillDataToReadBuffer posts with
+   asyncNotify(recvNotifyCh) (model: ENotify, a step of its own between the state check and getCallbacks; in the
+   instrumented build a scheduling point of its own, see props/C20.py) is the only thing that hands a late arrival to
+   the waiting invocation.  Hence: whenever something is pending while an invocation is parked, the token is there (or
+   closeNotifyCh is closed) unless the event loop stands between its add and its notify; a parked invocation with a
+   token (or a close) is enabled and leaves the select; at rest everything that arrived has been handed to it. ---- *)
+Theorem C20_parked_resumed : forall cb0 inb nc scr ups sy nds pks sched i nd cl,
+  let s := run sched (init_rd cb0 inb nc scr ups sy nds pks) in
+  nth_error (gors s) i = Some (GRdPark nd cl) -> pending s <> [] ->
+  epc s <> EChk -> epc s <> ENotify -> epc s <> EClrP ->
+  rnotify s = true \/ cnotify s = true.
+Proof. exact parked_resumed. Qed.
+Print Assumptions C20_parked_resumed.
+
+Theorem C20_parked_enabled : forall s i nd cl,
+  nth_error (gors s) i = Some (GRdPark nd cl) -> rnotify s = true \/ cnotify s = true ->
+  nth_error (gors (step s (WGor i))) i <> Some (GRdPark nd cl).
+Proof. exact parked_enabled. Qed.
+Print Assumptions C20_parked_enabled.
+
+Theorem C20_parked_quiescent : forall cb0 inb nc scr ups sy nds pks sched i nd cl,
+  let s := run sched (init_rd cb0 inb nc scr ups sy nds pks) in
+  nth_error (gors s) i = Some (GRdPark nd cl) -> epc s = EIdle -> rnotify s = false -> cnotify s = false ->
+  pending s = [].
+Proof. exact parked_quiescent. Qed.
+Print Assumptions C20_parked_quiescent.
+
+(* a length-prefixed message flushed in two parts: [3] (the length) arrives, OnData is offered [3] and reads 4 bytes
+   (length + body): it parks (a token left by the first arrival wakes it once, in vain); the body [7;8;9] arrives while it is parked: the event loop's CAS on callbackInProcess
+   fails (WEv steps 5..9 of the second arrival), the token wakes the invocation, which moves the body in and returns *)
+Example C20_length_prefixed_two_flushes :
+  let s := run (repeat WEv 8 ++ repeat (WGor 0) 6 ++ repeat WEv 6 ++ repeat (WGor 0) 2)
+               (init_rd true [EData [3]; EData [7; 8; 9]] 0 [] [] [] [4%nat] []) in
+  offers s = [[3]] /\ consumed s = [] /\ nth_error (gors s) 0 = Some (GCbBody 4 0) /\ epc s = EIdle /\ inproc s = 1 /\
+  let s' := run (repeat (WGor 0) 12) s in
+  consumed s' = [3; 7; 8; 9] /\ pending s' = [] /\ recv s' = [] /\ gors s' = [GExit] /\ inproc s' = 0.
+Proof. vm_compute. repeat split. Qed.
+(* the same arrival order with the invocation still parked when the event loop is done: only the token is between the
+   waiting OnData and its bytes (they sit in pendingData, callbackInProcess = 1, no other goroutine will ever be started) *)
+Example C20_parked_has_only_the_token :
+  let s := run (repeat WEv 8 ++ repeat (WGor 0) 6 ++ repeat WEv 6)
+               (init_rd true [EData [3]; EData [7; 8; 9]] 0 [] [] [] [4%nat] []) in
+  nth_error (gors s) 0 = Some (GRdPark 4 0) /\ pending s = [[7; 8; 9]] /\ epc s = EIdle /\ inproc s = 1 /\
+  length (gors s) = 1%nat /\ rnotify s = true.
+Proof. vm_compute. repeat split. Qed.
 
 (* ---- the bytes an OnData invocation was offered stay readable until it returns: while an OnData runs, the event
    loop never touches recvBuf.  Formerly refuted (C20_view_stable_refuted; signature
@@ -142,14 +191,14 @@ Print Assumptions C20_late_serial.
    Since the repair that path recycles recvBuf only when no callbacks are installed (then there is no goroutine
    at all); with callbacks, close()/clean() recycle it after wg.Wait.  The witness schedule is the regression
    example below and a regression scenario of the harness. ---- *)
-Theorem C20_view_stable : forall cb0 inb nc scr ups sy sched,
-  let s := run sched (init_sy cb0 inb nc scr ups sy) in
+Theorem C20_view_stable : forall cb0 inb nc scr ups sy nds pks sched,
+  let s := run sched (init_rd cb0 inb nc scr ups sy nds pks) in
   cz g_run (gors s) >= 1 -> recv (step s WEv) = recv s.
 Proof. exact view_stable. Qed.
 Print Assumptions C20_view_stable.
 
 Example C20_regress_recycle_under_OnData :
-  let s := run ([WClo 0; WClo 0] ++ repeat WEv 7 ++ repeat (WGor 0) 3 ++ [WClo 0; WClo 0] ++ repeat WEv 5)
+  let s := run ([WClo 0; WClo 0] ++ repeat WEv 8 ++ repeat (WGor 0) 3 ++ [WClo 0; WClo 0] ++ repeat WEv 5)
                (init true [EData [1; 2; 3]; EData [4]] 1 [(3%nat, 0%nat)] []) in
   cz g_run (gors s) = 1 /\ st s = c_streamClosed /\ epc s = EIdle /\ pending s = [] /\ recv s = [1; 2; 3] /\
   (* OnData then reads all it was offered; close() cleans up afterwards *)
@@ -161,7 +210,7 @@ Proof. vm_compute. repeat split. Qed.
    cleared the flag and before its re-check; OnData consumes 1, 0, 2, then everything; the run is quiescent,
    open, and satisfies the hypotheses of C20_quiescent *)
 Example C20_example_run :
-  let s := run (repeat WEv 7 ++ repeat (WGor 0) 3 ++ repeat WEv 5 ++ repeat (WGor 0) 12 ++ repeat WEv 4 ++ repeat (WGor 0) 40 ++ repeat WEv 6 ++ repeat (WGor 1) 12)
+  let s := run (repeat WEv 8 ++ repeat (WGor 0) 3 ++ repeat WEv 6 ++ repeat (WGor 0) 12 ++ repeat WEv 5 ++ repeat (WGor 0) 40 ++ repeat WEv 6 ++ repeat (WGor 1) 12)
                (init true [EData [1; 2]; EData [3]; EData [4; 5; 6]] 0 [(1%nat, 0%nat); (0%nat, 0%nat); (2%nat, 0%nat)] []) in
   cbset s = true /\ epc s = EIdle /\ st s = c_streamOpened /\ cstate s = 0 /\ pending s = [] /\ recv s = [] /\
   consumed s = [1; 2; 3; 4; 5; 6] /\ offers s <> [] /\ Forall (fun g => g = GExit) (gors s).
@@ -170,7 +219,7 @@ Proof. vm_compute. repeat split; try discriminate; repeat constructor. Qed.
 (* non-vacuity 2 (the former witness of the late-SetCallbacks stranding): the message arrives before
    SetCallbacks; SetCallbacks itself now starts the goroutine and the byte is consumed *)
 Example C20_late_example_run :
-  let s := run ([WEv; WEv; WEv; WEv] ++ repeat WSet 4 ++ repeat (WGor 0) 12) (init false [EData [7]] 0 [] []) in
+  let s := run (repeat WEv 5 ++ repeat WSet 4 ++ repeat (WGor 0) 12) (init false [EData [7]] 0 [] []) in
   cbset s = true /\ spc s = SDone /\ epc s = EIdle /\ st s = c_streamOpened /\ pending s = [] /\ recv s = [] /\
   consumed s = [7] /\ gors s = [GExit].
 Proof. vm_compute. repeat split. Qed.
@@ -179,7 +228,7 @@ Proof. vm_compute. repeat split. Qed.
    message into recvBuf), then installs callbacks; nothing more arrives.  SetCallbacks starts the goroutine, which
    offers the remaining [3;4;5;6] from recvBuf (pendingData is empty all along) *)
 Example C20_sync_head_then_callbacks :
-  let s := run ([WEv; WEv; WEv; WEv] ++ [WSync; WSync] ++ repeat WSet 4 ++ repeat (WGor 0) 12)
+  let s := run (repeat WEv 5 ++ [WSync; WSync] ++ repeat WSet 4 ++ repeat (WGor 0) 12)
                (init_sy false [EData [1; 2; 3; 4; 5; 6]] 0 [] [] [2%nat]) in
   cbset s = true /\ spc s = SDone /\ epc s = EIdle /\ st s = c_streamOpened /\ pending s = [] /\ recv s = [] /\
   offers s = [[3; 4; 5; 6]] /\ consumed s = [1; 2; 3; 4; 5; 6] /\ gors s = [GExit].
